@@ -166,6 +166,9 @@ func (runInfo *runInfoStruct) invokeAddOperator(operator *ast.AddOperator) {
 
 	switch operator.Operator {
 	case "+":
+		// an array operand is appended to, or appended, as the slice of its elements
+		lhsV = arrayAsSlice(lhsV)
+		runInfo.rv = arrayAsSlice(runInfo.rv)
 		lhsKind := lhsV.Kind()
 		rhsKind := runInfo.rv.Kind()
 
